@@ -557,8 +557,9 @@ enum class family_t
 rc::Gen<ucase_t> gen_ucase(const family_t family)
 {
     const auto ids      = (family == family_t::bundle || family == family_t::bundle_small) ? bundle_ids() : other_ids();
-    const auto max_dims = family == family_t::others ? 32 : (family == family_t::memory ? 16 : 12);
-    const auto evals_hi = family == family_t::others ? 5000 : (family == family_t::memory ? 600 : 1500);
+    // the asan flavour is 10-30x slower than the plain one (Eigen at -O1 with bounds checks): smaller instances there
+    const auto max_dims = family == family_t::others ? 32 : (family == family_t::memory ? 16 : 8);
+    const auto evals_hi = family == family_t::others ? 5000 : (family == family_t::memory ? 600 : 800);
     const auto g_bundle = family == family_t::bundle_small
                             ? gen::range<int>(2, 4)
                             : (family == family_t::bundle
